@@ -231,6 +231,7 @@ def judge(ctx, prop_id, progs, cases, defs):
     fam_hist = collections.Counter()
     clause_mismatch = []
     verdict_mismatch = []
+    sampled = set()
     for c in cases:
         fam = family_of(c.prog, c.atom)
         fam_hist[fam] += 1
@@ -267,7 +268,8 @@ def judge(ctx, prop_id, progs, cases, defs):
                     cnt["ambiguous_near_max_size"] += 1
                 else:
                     verdict_mismatch.append((c, sname))
-        if len(ctx.cov["samples"]) < 6 and nontrivial and c.origin == "goal":
+        if len(ctx.cov["samples"]) < 6 and nontrivial and c.origin == "goal" and c.pidx not in sampled and rg.chalk_size(c.atom[1][0]) >= 3:
+            sampled.add(c.pidx)
             ctx.sample({"program": c.prog.text[:400], "goal": c.text, "oracle": c.oracle,
                         "slg": sx.to_sexp(c.answers.get("slg", "?"))[:60], "rec": sx.to_sexp(c.answers.get("rec", "?"))[:60]})
 
